@@ -28,6 +28,14 @@ def run(ctx):
     ctx.validate("BgzfWriter", "WriterTrace", "WriterTraceI.cfg", wt, is_p=False)
     v = ctx.validate("BgzfReader", "ReaderTrace", "ReaderTrace.cfg", rt)
     ctx.distinct += v.scenarios
+    # directed schedules of the compressor / emitter hand-off ("all goroutine schedules of the workers"): the
+    # writer hooks hold the emitter or a compressor while the caller goes on; no fault is injected here
+    ht = ctx.work + "/hold.ndjson"
+    sh = ctx.drive(["wr", "--mode", "hold", "--out", ht], timeout=7200)
+    ctx.extra["driver_hold"] = sh
+    ctx.evaluations += sh["lines"]
+    ctx.distinct += sh["scenarios"]
+    ctx.validate("BgzfWriter", "WriterTrace", "WriterTraceP.cfg", ht)
     ctx.add_samples(wt, n=1, maxlines=10)
     ctx.add_samples(rt, n=1, maxlines=10)
     if ctx.tier == "thorough":
